@@ -199,12 +199,39 @@ func shapeFacts(out map[string]any) {
 	out["shape_root_ds_from_anchors_answer"] = false
 	out["shape_root_ds_from_anchors_authority"] = false
 	out["shape_bare_denials_go_through_authority"] = false
+	out["shape_key_fetch_is_validated"] = false
+	out["shape_cd_fetch_only_before_explicit_validation"] = false
 	fset := token.NewFileSet()
 	file, err := parser.ParseFile(fset, filepath.Join(repoDir(), "middleware/resolver/resolver.go"), nil, 0)
 	if err != nil {
 		out["shape_parse_error"] = err.Error()
 		return
 	}
+	// DS look-ups with CD=1 (unvalidated sub-query) happen only where the caller validates the reply itself:
+	// `lookupDS(…, true)` literally appears in authenticatedDelegationDS and nowhere else
+	cdTrueSites, cdTrueElsewhere := 0, 0
+	for _, d := range file.Decls {
+		fd, ok := d.(*ast.FuncDecl)
+		if !ok || fd.Body == nil {
+			continue
+		}
+		ast.Inspect(fd.Body, func(x ast.Node) bool {
+			c, isC := x.(*ast.CallExpr)
+			if !isC {
+				return true
+			}
+			if sel, isS := c.Fun.(*ast.SelectorExpr); isS && sel.Sel.Name == "lookupDS" && len(c.Args) == 3 {
+				if id, isId := c.Args[2].(*ast.Ident); isId && id.Name == "true" {
+					cdTrueSites++
+					if fd.Name.Name != "authenticatedDelegationDS" {
+						cdTrueElsewhere++
+					}
+				}
+			}
+			return true
+		})
+	}
+	out["shape_cd_fetch_only_before_explicit_validation"] = cdTrueSites == 1 && cdTrueElsewhere == 0
 	for _, d := range file.Decls {
 		fd, ok := d.(*ast.FuncDecl)
 		if !ok || fd.Recv == nil || fd.Body == nil {
@@ -330,6 +357,25 @@ func shapeFacts(out map[string]any) {
 				return true
 			})
 			out["shape_verifydnssec_anchors_own_dnskey_rrset"] = ok && used
+			// the DNSKEY fetch is a CD=0 (validated) sub-query whatever response is being checked:
+			// nothing in this function writes a CheckingDisabled field
+			writesCD := false
+			ast.Inspect(fd.Body, func(x ast.Node) bool {
+				if as, isAs := x.(*ast.AssignStmt); isAs {
+					for _, l := range as.Lhs {
+						if sel, isSel := l.(*ast.SelectorExpr); isSel && sel.Sel.Name == "CheckingDisabled" {
+							writesCD = true
+						}
+					}
+				}
+				if kv, isKV := x.(*ast.KeyValueExpr); isKV {
+					if id, isId := kv.Key.(*ast.Ident); isId && id.Name == "CheckingDisabled" {
+						writesCD = true
+					}
+				}
+				return true
+			})
+			out["shape_key_fetch_is_validated"] = !writesCD && posOfCall(fd.Body, "subQuery") != 0
 		}
 	}
 }
